@@ -7,6 +7,9 @@ package main
 
 import (
 	"reflect"
+	"strings"
+
+	"github.com/go-openapi/inflect"
 
 	"ariga.io/atlas/sql/mysql"
 	"ariga.io/atlas/sql/postgres"
@@ -38,7 +41,7 @@ func clone(t schema.Type) reflect.Value {
 
 // variants enumerates the parameter grid over the int / *int / bool /
 // []string fields of t0 (full product for <=2 numeric fields).
-func variants(t0 schema.Type, tier string) []schema.Type {
+func variants(t0 schema.Type, tier string, only map[string]bool) []schema.Type {
 	ig := intGridQuick
 	if tier == "thorough" {
 		ig = intGridThorough
@@ -48,6 +51,9 @@ func variants(t0 schema.Type, tier string) []schema.Type {
 	for i := 0; i < rt.NumField(); i++ {
 		f := rt.Field(i)
 		if !f.IsExported() || f.Anonymous || f.Name == "T" {
+			continue
+		}
+		if only != nil && !only[f.Name] {
 			continue
 		}
 		var next []schema.Type
@@ -188,8 +194,24 @@ func gridTypes(o *dops, tier string) []gtype {
 			t0 = reflect.New(s.RType).Interface().(schema.Type)
 			t0 = setT(t0, s.T)
 		}
-		for _, v := range variants(t0, tier) {
+		// "spec": only the parameters the spec declares vary (these are types of the dialect);
+		// "specx": every field varies (model tie only).
+		decl := map[string]bool{}
+		for _, a := range s.Attributes {
+			decl[inflect.Camelize(a.Name)] = true
+		}
+		if s.Name == "interval" || strings.Contains(s.T, "to") || o.name == "postgres" && len(s.Attributes) == 0 && s.ToSpec != nil {
+			decl["F"] = true
+		}
+		for _, v := range variants(t0, tier, decl) {
+			if vs := reflect.ValueOf(v).Elem().FieldByName("Values"); vs.IsValid() && vs.Len() == 0 {
+				add(v, "specx") // an enum/set without values is not a type
+				continue
+			}
 			add(v, "spec")
+		}
+		for _, v := range variants(t0, tier, nil) {
+			add(v, "specx")
 		}
 	}
 	// 2. what inspection produces for raw column types.
